@@ -6,7 +6,11 @@ func H_C13_v1_rfc_layout() {
 	raw := vBytes("raw", 16)
 	vAssume(raw[6]>>4 == 1)   // version 1
 	vAssume(raw[8]>>6 == 0x2) // RFC 4122 variant (10x)
-	var u UUIDv1
+	var u UUIDv1 // a reused receiver: arbitrary earlier contents
+	u.UUID.Version, u.UUID.Variant = vU8("prev.version"), vU8("prev.variant")
+	copy(u.UUID.Data[:], vBytes("prev.data", 15))
+	u.Time, u.ClockSeq = vU64("prev.time"), vU16("prev.clock")
+	copy(u.NodeID[:], vBytes("prev.node", 6))
 	n, err := u.Unmarshal(raw)
 	vCheck(err == nil && n == 16, "v1/unmarshal-ok")
 	timeLow := uint64(raw[0])<<24 | uint64(raw[1])<<16 | uint64(raw[2])<<8 | uint64(raw[3])
